@@ -21,7 +21,7 @@ use std::sync::Arc;
 use surf_n_term::encoder::{ColorDepth, Encoder, TTYEncoder};
 use surf_n_term::{
     DecMode, Face, FaceAttrs, FaceModify, Image, Position, Shape, TerminalCaps, TerminalColor,
-    TerminalCommand, UnderlineStyle, RGBA,
+    Color, TerminalCommand, UnderlineStyle, RGBA,
 };
 
 // ---------------------------------------------------------------------------------------
@@ -1015,6 +1015,128 @@ fn sweep<G: Fn(u64) -> Spec + Sync>(
     });
 }
 
+// ---------------------------------------------------------------------------------------
+// (5) colour conversion does not depend on the colours converted before
+// ---------------------------------------------------------------------------------------
+
+const HISTORY_RGB: [Rgb; 6] = [[255, 0, 0], [18, 52, 86], [0, 0, 0], [255, 255, 255], [128, 128, 128], [10, 200, 30]];
+const HISTORY_ALPHA: [u8; 4] = [255, 128, 40, 0];
+
+fn history_colours() -> Vec<RGBA> {
+    let mut v = vec![];
+    for c in HISTORY_RGB {
+        for a in HISTORY_ALPHA {
+            v.push(RGBA::new(c[0], c[1], c[2], a));
+        }
+    }
+    v
+}
+
+/// a face modification that sets exactly the colour slots given (0 fg, 1 bg, 2 underline colour)
+fn modify_slots(slots: &[(usize, RGBA)]) -> TerminalCommand {
+    let mut m = FaceModify::default();
+    for (slot, c) in slots {
+        match slot {
+            0 => m.fg = Some(*c),
+            1 => m.bg = Some(*c),
+            _ => m.underline_color = Some(*c),
+        }
+    }
+    TerminalCommand::FaceModify(m)
+}
+
+fn encode_cmds(cfg: &Cfg, cmds: &[TerminalCommand]) -> Result<Vec<Op>, (String, String)> {
+    let mut enc = TTYEncoder::new(cfg.caps());
+    let mut out = vec![];
+    for cmd in cmds {
+        let cmd = cmd.clone();
+        match catch(|| enc.encode(&mut out, cmd)) {
+            Err(p) => return Err((p.key(), format!("encode panicked: {} ({}:{})", p.message, p.file, p.line))),
+            Ok(Err(e)) => return Err(("encode-error".into(), format!("encode returned an error: {:?}", e))),
+            Ok(Ok(())) => {}
+        }
+    }
+    parse_checked(&out)
+}
+
+fn rendition_of(ops: &[Op]) -> Rendition {
+    let mut r = Rendition::default();
+    for op in ops {
+        if let Op::Sgr(params) = op {
+            ecma48::sgr_apply(&mut r, params);
+        }
+    }
+    r
+}
+
+/// Every ordered pair of colours from {6 RGB values} x {4 alpha values}, in every ordered pair of colour
+/// slots, under the three colour depths: (a) two commands in one stream parse to what each gives alone on a
+/// fresh encoder; (b) one command setting both slots (and `Face` with fg and bg) leaves each slot with
+/// the value the slot gets when it is set alone.
+fn sweep_colour_history(viol: &Violations) -> u64 {
+    let cols = history_colours();
+    let n = cols.len();
+    let evals = AtomicU64::new(0);
+    (0..3 * 9 * n * n).into_par_iter().for_each(|i| {
+        let depth = (i % 3) as u8;
+        let s1 = i / 3 % 3;
+        let s2 = i / 9 % 3;
+        let c1 = cols[i / 27 % n];
+        let c2 = cols[i / 27 / n];
+        evals.fetch_add(if s1 < s2 { 2 } else { 1 }, Ordering::Relaxed);
+        if let Err((kind, detail)) = check_colour_history(depth, s1, s2, c1, c2) {
+            viol.add(
+                format!("colour-history:{kind}"),
+                detail,
+                json!({"kind": "colour-history", "s1": s1, "s2": s2, "c1": c1.to_rgba(), "c2": c2.to_rgba(), "depth": depth}),
+            );
+        }
+    });
+    evals.load(Ordering::Relaxed)
+}
+
+fn check_colour_history(depth: u8, s1: usize, s2: usize, c1: RGBA, c2: RGBA) -> Result<(), (String, String)> {
+    let cfg = Cfg { depth, kitty: false, glyphs: false };
+    let describe = || format!("slot {s1} = {:?} then slot {s2} = {:?} under {:?}", c1, c2, cfg);
+    let ctx = |(kind, detail): (String, String)| (kind, format!("{}: {detail}", describe()));
+    let alone1 = encode_cmds(&cfg, &[modify_slots(&[(s1, c1)])]).map_err(ctx)?;
+    let alone2 = encode_cmds(&cfg, &[modify_slots(&[(s2, c2)])]).map_err(ctx)?;
+    let both = encode_cmds(&cfg, &[modify_slots(&[(s1, c1)]), modify_slots(&[(s2, c2)])]).map_err(ctx)?;
+    let mut want = alone1.clone();
+    want.extend(alone2.iter().cloned());
+    if both != want {
+        return Err((
+            "not-self-contained".to_string(),
+            format!("{}: the stream parses to {:?}, the two commands alone give {:?}", describe(), both, want),
+        ));
+    }
+    if s1 < s2 {
+        let mut cmds = vec![modify_slots(&[(s1, c1), (s2, c2)])];
+        if (s1, s2) == (0, 1) {
+            cmds.push(TerminalCommand::Face(Face::new(Some(c1), Some(c2), FaceAttrs::EMPTY)));
+        }
+        for cmd in cmds {
+            let ops = encode_cmds(&cfg, &[cmd.clone()]).map_err(ctx)?;
+            let (r, r1, r2) = (rendition_of(&ops), rendition_of(&alone1), rendition_of(&alone2));
+            let pick = |r: &Rendition, s: usize| match s {
+                0 => r.fg,
+                1 => r.bg,
+                _ => r.underline_colour,
+            };
+            if pick(&r, s1) != pick(&r1, s1) || pick(&r, s2) != pick(&r2, s2) {
+                return Err((
+                    "slot-depends-on-other-slot".to_string(),
+                    format!(
+                        "{:?} under {:?}: slots end as {:?} / {:?}, set alone they are {:?} / {:?}",
+                        cmd, cfg, pick(&r, s1), pick(&r, s2), pick(&r1, s1), pick(&r2, s2)
+                    ),
+                ));
+            }
+        }
+    }
+    Ok(())
+}
+
 pub fn run(ctx: &Ctx) -> Result<Report, String> {
     let viol = Violations::new();
     let samples = Samples::new(ctx.seed);
@@ -1089,7 +1211,10 @@ pub fn run(ctx: &Ctx) -> Result<Report, String> {
     }
     local.flush(&c);
 
-    let evals = c.evals.load(Ordering::Relaxed) + pair_evals.load(Ordering::Relaxed);
+    // 5. colours with an alpha channel converted one after another by one encoder
+    let history_evals = sweep_colour_history(&viol);
+
+    let evals = c.evals.load(Ordering::Relaxed) + pair_evals.load(Ordering::Relaxed) + history_evals;
     let mut r = Report::new("exploration");
     r.set("evaluations", evals)
         .set("distinct_nontrivial", c.nontrivial.load(Ordering::Relaxed))
@@ -1109,6 +1234,7 @@ pub fn run(ctx: &Ctx) -> Result<Report, String> {
         .set("space_face_modifications_wide_lattice_x_3_depths", wide_total)
         .set("space_ordered_pairs", (n * n) as u64)
         .set("pair_streams", pair_evals.load(Ordering::Relaxed))
+        .set("colour_history_streams", history_evals)
         .set("representatives", n)
         .set("empty_outputs", c.empty_outputs.load(Ordering::Relaxed))
         .set("bytes_parsed", c.bytes.load(Ordering::Relaxed))
@@ -1153,6 +1279,21 @@ pub fn replay(w: &Value) -> Result<(bool, String), String> {
             Ok(match eval_pair(&a, &b, &cfg) {
                 Ok(()) => (false, format!("{head}\nstream parses to the concatenation of both operation lists")),
                 Err((culprit, kind, detail)) => (true, format!("{head}\n[{culprit}: {kind}] {detail}")),
+            })
+        }
+        Some("colour-history") => {
+            let col = |k: &str| -> Result<RGBA, String> {
+                let v: [u8; 4] = serde_json::from_value(w[k].clone()).map_err(|e| format!("{k}: {e}"))?;
+                Ok(RGBA::new(v[0], v[1], v[2], v[3]))
+            };
+            let (c1, c2) = (col("c1")?, col("c2")?);
+            let s1 = w["s1"].as_u64().ok_or("s1")? as usize;
+            let s2 = w["s2"].as_u64().ok_or("s2")? as usize;
+            let depth = w["depth"].as_u64().ok_or("depth")? as u8;
+            let head = format!("colour slot {s1} = {:?}, then colour slot {s2} = {:?}, depth {depth} (0 true colour, 1 256 colours, 2 16 colours)", c1, c2);
+            Ok(match check_colour_history(depth, s1, s2, c1, c2) {
+                Ok(()) => (false, format!("{head}\neach colour converts as it does alone on a fresh encoder")),
+                Err((kind, detail)) => (true, format!("{head}\n[{kind}] {detail}")),
             })
         }
         _ => Err("witness without kind".into()),
